@@ -57,11 +57,11 @@ def items(tier, seed):
     # in each of its phases
     yield from spaces.mk(['nest21', 'nest22'], force='product',
                          fargs=tstretch('top', (0, 1, 2, 3, 4)),
-                         job_open=INNER, top_open={'sdt': [0, 2]},
+                         job_open=INNER, top_open={'sdt': [0, 2], 'window': [1]},
                          nest_open=NEST, k=2 if th else 1, bound=2)
     yield from spaces.mk(['nest32'], force='product',
                          fargs=tstretch('top', (0, 1, 2, 3, 4)),
-                         job_open=INNER, top_open={'sdt': [0, 2]},
+                         job_open=INNER, top_open={'sdt': [0, 2], 'window': [1]},
                          nest_open=NEST, k=1 if th else 0, bound=2)
     # parent ends by success while the nested scheduler is forever, or by a
     # critical sibling
@@ -69,10 +69,10 @@ def items(tier, seed):
                     ('mods', {'alts': STRETCH})]}
     yield from spaces.mk(['nest22'], force='product', fargs=fv,
                          job_open=dict(INNER, dur=[0, 2, 3, 'never']),
-                         top_open={'sdt': [0, 2]}, nest_open=NEST,
+                         top_open={'sdt': [0, 2], 'window': [1]}, nest_open=NEST,
                          k=2 if th else 1, bound=2)
     yield from spaces.mk(['nest32'], force='product', fargs=fv,
-                         job_open=INNER, top_open={'sdt': [0, 2]},
+                         job_open=INNER, top_open={'sdt': [0, 2], 'window': [1]},
                          nest_open=NEST, k=1 if th else 0, bound=2)
     cs = {'parts': [('each_job', {'mods': [('out', 'raise'),
                                            ('critical', True)]}),
@@ -80,7 +80,7 @@ def items(tier, seed):
     yield from spaces.mk(['nest22'], force='product', fargs=cs,
                          job_open={'dur': [0, 2, 3], 'cdelay': [1],
                                    'sd': [1, 3]},
-                         top_open={'sdt': [0, 2]}, nest_open=NEST,
+                         top_open={'sdt': [0, 2], 'window': [1]}, nest_open=NEST,
                          k=2 if th else 1, bound=2)
     yield from spaces.mk(['nest32'], force='product', fargs=cs,
                          job_open={'dur': [2], 'cdelay': [1]}, top_open={},
@@ -91,7 +91,7 @@ def items(tier, seed):
                              fargs=tstretch(where, (1, 2, 3)),
                              job_open={'dur': [0, 2, 3], 'cdelay': [1],
                                        'sd': [1, 3]},
-                             top_open={'sdt': [0, 2]},
+                             top_open={'sdt': [0, 2], 'window': [1]},
                              nest_open={'timeout': [1, 2], 'sdt': [0, 2],
                                         'forever': [True]},
                              k=1 if th else 0, bound=2)
